@@ -15,7 +15,7 @@ from fractions import Fraction
 from common import CORPUS_DIR, call, rat, unrat
 
 RULE = ("four case kinds. poly: centre polylines of 2..8 vertices whose steps are Pythagorean directions scaled by k/16 (segment lengths "
-        "and all numpy arithmetic exact), arbitrary grid right/left boundaries, arc lengths 0, full length, every vertex, dyadic "
+        "and all numpy arithmetic exact), arbitrary grid right/left boundaries (30% of them repeat a vertex two or three times in a row: pivot of a sharp corner), arc lengths 0, full length, every vertex, dyadic "
         "fractions of every segment, random interior, out of range; plus polylines with a repeated vertex (NaN branch, correspondence "
         "only). polyfloat: arbitrary double coordinates (oracle with conditioning-aware tolerance only). merge: two lanelets linked "
         "via successor and/or predecessor lists in either argument order, joint exact / within isclose tolerance / left-only / open, "
@@ -40,7 +40,9 @@ ASSUMPTIONS = [
 TRUSTED = ["C20: termination of the real route functions is observed through a call budget on LaneletNetwork.find_lanelet_by_id "
            "(a counting subclass) derived from the number of simple paths of the graph, plus a 30 s wall-clock alarm"]
 REQUIRED_BUCKETS = ["poly", "poly3d", "poly/s=0", "poly/s=length", "poly/s=vertex", "poly/s=interior", "poly/s=out-of-range",
-                    "poly/repeated-vertex", "polyfloat", "merge/joined-exact", "merge/open", "merge/unlinked", "merge/swapped-args",
+                    "poly/repeated-vertex", "polyfloat", "merge/joined-exact", "merge/left-boundary-repeats-vertex",
+                    "merge/right-boundary-repeats-vertex", "merge/pred-boundary-repeats-vertex", "merge/suc-boundary-repeats-vertex",
+                    "poly/boundary-repeats-vertex", "merge/open", "merge/unlinked", "merge/swapped-args",
                     "net", "net/cyclic", "net/diamond", "net/range=path-length", "net/range-huge", "net/exhaustive",
                     "net/pred-independent", "net/dangling-id", "net/witness"]
 WORKERS = {"quick": 1, "thorough": 8}
@@ -119,8 +121,16 @@ def gen_center(r, n, repeated=False):
 def gen_boundary(r, center, sign):
     if r.random() < 0.5:
         off = Fraction(r.randint(1, 32), 8) * sign
-        return [(x, y + off) for x, y in center]
-    return [(Fraction(r.randint(-512, 512), 8), Fraction(r.randint(-512, 512), 8)) for _ in center]
+        pts = [(x, y + off) for x, y in center]
+    else:
+        pts = [(Fraction(r.randint(-512, 512), 8), Fraction(r.randint(-512, 512), 8)) for _ in center]
+    if r.random() < 0.3:
+        # a boundary may pivot on one point (the inner side of a sharp corner: the same vertex twice or three times in a row)
+        # while the centre line keeps distinct consecutive vertices; any position, also the first / last segment
+        i = r.randrange(len(pts) - 1)
+        for k in range(i + 1, min(len(pts), i + 1 + r.choice([1, 1, 2]))):
+            pts[k] = pts[i]
+    return pts
 
 
 def gen_poly(ctx, repeated=False):
@@ -416,6 +426,8 @@ def run_poly(ctx, case):
     cF = [(F(x), F(y)) for x, y in c]
     repeated = any(a == b for a, b in zip(cF, cF[1:]))
     ctx.tag("poly")
+    if any(u == v for side in (ri, le) for u, v in zip(side, side[1:])):
+        ctx.tag("poly/boundary-repeats-vertex")
     if repeated:
         ctx.tag("poly/repeated-vertex")
     ctx.case(case)
@@ -615,6 +627,11 @@ def run_merge(ctx, case):
     if not ends:
         return
     ctx.tag("merge/joined-exact")
+    for side in ("left", "right"):
+        for which, lan_ in (("pred", first), ("suc", second)):
+            if any(u == v for u, v in zip(lan_[side], lan_[side][1:])):
+                ctx.tag(f"merge/{side}-boundary-repeats-vertex")
+                ctx.tag(f"merge/{which}-boundary-repeats-vertex")
     sub = {"kind": "merge", "l1": strip(l1), "l2": strip(l2)}
     if res[0] == "err":
         ctx.fail(f"C20/merge_lanelets/raises-{res[1]}", f"merge of lanelet {first['id']} with its successor {second['id']} raises {res[2]}", sub)
